@@ -478,3 +478,48 @@ def _domain_des_vars_connection(n):
 
 DOMAIN = dict(globals().get('DOMAIN', {}))
 DOMAIN[GP + 'GraphProcessor._get_des_vars@connection-choices'] = _domain_des_vars_connection
+
+
+# ---- GraphProcessor.get_imputation_ratio: "the imputation ratio is their quotient" (C04) -------------------------------
+# NV / NDS / CONT: the values of get_n_valid_designs / get_n_design_space / the continuous factor of
+# get_additional_dv_stats for the given `with_fixed` (uninterpreted: those functions are bounded-only, C04 driver)
+CONTRACTS[GP + 'GraphProcessor.get_imputation_ratio'] = dict(
+    properties=['C04'],
+    types={'self': 'Ref[GraphProcessor]', 'with_fixed': 'Bool', 'include_cont': 'Bool'},
+    returns='Real',
+    funcs={'NV': (['Bool'], 'Int'), 'NDS': (['Bool'], 'Int'), 'CONT': (['Bool'], 'Real')},
+    calls={
+        'self.get_n_valid_designs': dict(params=['with_fixed'], types={}, returns='Int', modifies=[], assumed=True, receiver='self', pure_expr='NV(with_fixed)'),
+        'self.get_n_design_space': dict(params=['with_fixed'], types={}, returns='Int', modifies=[], assumed=True, receiver='self', pure_expr='NDS(with_fixed)'),
+        'self.get_additional_dv_stats': dict(params=['with_fixed'], types={}, returns='Tuple[Int,Int,Int,Int,Real,Real]', modifies=[], assumed=True, receiver='self',
+                                             ensures=['result[5] == CONT(with_fixed)']),
+    },
+    ensures={
+        'no-valid-design-gives-one': ('property', 'implies(NV(with_fixed) == 0, result == 1)'),
+        'quotient-of-declared-and-valid-size': ('property', 'implies(NV(with_fixed) != 0 and not include_cont, result == NDS(with_fixed) / NV(with_fixed))'),
+        'times-the-continuous-factor-when-asked': ('property', 'implies(NV(with_fixed) != 0 and include_cont, result == NDS(with_fixed) / NV(with_fixed) * CONT(with_fixed))'),
+    },
+    modifies=[],
+)
+
+
+def _domain_imputation_ratio(n):
+    import random, os
+    from adsg_core.optimization.graph_processor import GraphProcessor
+    rng = random.Random(7700 + int(os.environ.get('VERIF_SEED', '0') or 0))
+    for _ in range(n):
+        nv = {b: rng.choice([0, 1, 2, 3, 5, 7, 12]) for b in (False, True)}
+        nds = {b: rng.choice([1, 2, 4, 9, 10, 36]) for b in (False, True)}
+        cont = {b: rng.choice([1.0, 1.5, 2.0]) for b in (False, True)}
+        gp = _GP()
+        gp.get_n_valid_designs = lambda with_fixed=False, nv=nv: nv[with_fixed]
+        gp.get_n_design_space = lambda with_fixed=False, nds=nds: nds[with_fixed]
+        gp.get_additional_dv_stats = lambda with_fixed=False, cont=cont: (0, 0, 0, 0, 1.0, cont[with_fixed])
+        wf, ic = rng.random() < 0.5, rng.random() < 0.5
+        env = {'self': gp, 'with_fixed': wf, 'include_cont': ic, 'NV': (lambda b, nv=nv: nv[b]), 'NDS': (lambda b, nds=nds: nds[b]),
+               'CONT': (lambda b, cont=cont: cont[b])}
+        yield (env, (lambda gp=gp, wf=wf, ic=ic: GraphProcessor.get_imputation_ratio(gp, with_fixed=wf, include_cont=ic)), {},
+               f'get_imputation_ratio(with_fixed={wf}, include_cont={ic}) with n_valid={nv[wf]}, n_design_space={nds[wf]}, cont={cont[wf]}')
+
+
+DOMAIN[GP + 'GraphProcessor.get_imputation_ratio'] = _domain_imputation_ratio
